@@ -1,7 +1,7 @@
 (* C02 -- MDIB version counters are monotonic, gap-free and referentially consistent.
    Property theorems only (model: Mdib/Model.v, proofs: Mdib/Proofs.v). *)
 From Coq Require Import List ZArith.
-From SDC Require Import Mdib.Model Mdib.Proofs Mdib.Proofs_Ctx.
+From SDC Require Import Mdib.Model Mdib.Proofs Mdib.Proofs_Ctx Mdib.Proofs_Descr.
 Import ListNotations.
 Open Scope Z_scope.
 
@@ -73,3 +73,118 @@ Proof.
   constructor; [|constructor]. split; [unfold K_METRIC; split; [apply Z.le_refl|reflexivity]|].
   intros a [<-|[]]. now exists 7, 42.
 Qed.
+
+(* ---------------------------------------------------------------- descriptor transactions (kind 6) *)
+(* Side conditions (Mdib/Proofs_Descr.v):
+     mdib_wf m        ddom / cdom list every descriptor / context state, no single state without descriptor,
+                      context descriptors have no single state (preserved by every transaction: C02_history_all);
+     descr_only acts  only add_descriptor / get_descriptor / remove_descriptor / get_state calls (and their entity twins);
+     acts_sep m acts  for every removed handle D: no updated handle, no parent of an added descriptor and no other removed
+                      handle lies in the subtree of D ([below m x D]); the parent of D exists and is not below D.
+   Without acts_sep the clauses on consistency and deletion FAIL (C02_descr_*_refuted below). *)
+
+(* 1. a descriptor that exists before and after a committed descriptor transaction has its version unchanged or + 1;
+   + 1 exactly when it is updated by a call or is the parent of an added / removed descriptor - once, however many
+   children are added and removed (its parent, kind and, if only bumped, its content are kept); otherwise it is untouched *)
+Theorem C02_descr_tx_versions : forall m acts, mdib_wf m -> descr_only acts -> acts_sep m acts ->
+  snd (transaction 6 None acts m) = 0 ->
+  forall h d0 d', descrs m h = Some d0 -> descrs (fst (transaction 6 None acts m)) h = Some d' ->
+    (touched m acts h /\ d_ver d' = d_ver d0 + 1 /\ d_parent d' = d_parent d0 /\ d_kind d' = d_kind d0 /\
+     ((forall p, ~ In (ADUpd h p) acts) -> d_pay d' = d_pay d0)) \/
+    (~ touched m acts h /\ d' = d0).
+Proof. exact descr_tx_versions. Qed.
+Print Assumptions C02_descr_tx_versions.
+
+(* frame: a handle that no call names, that is not the parent of an added / removed descriptor and is not below a removed
+   one keeps its descriptor (or stays absent) and its state, committed or not *)
+Theorem C02_descr_tx_frame : forall m acts, mdib_wf m -> descr_only acts -> acts_sep m acts ->
+  forall h, ~ named acts h -> ~ touched m acts h -> (forall D, In (ADDel D) acts -> ~ below m h D) ->
+    descrs (fst (transaction 6 None acts m)) h = descrs m h /\ states (fst (transaction 6 None acts m)) h = states m h.
+Proof. exact descr_tx_frame. Qed.
+Print Assumptions C02_descr_tx_frame.
+
+(* 2. every state keeps referring to an existing descriptor and carries its DescriptorVersion - also the states of updated
+   descriptors, of bumped parents and of created descriptors *)
+Theorem C02_descr_tx_consistent : forall m acts, mdib_wf m -> descr_only acts -> acts_sep m acts ->
+  states_consistent m -> states_consistent (fst (transaction 6 None acts m)).
+Proof. exact descr_tx_consistent. Qed.
+Print Assumptions C02_descr_tx_consistent.
+
+(* a StateVersion moves by at most one; a descriptor that got a new version (updated or bumped) takes its state along:
+   new StateVersion, new DescriptorVersion *)
+Theorem C02_descr_tx_states : forall m acts, mdib_wf m -> descr_only acts -> acts_sep m acts ->
+  (forall h o s', states m h = Some o -> states (fst (transaction 6 None acts m)) h = Some s' ->
+     s' = o \/ s_ver s' = s_ver o + 1) /\
+  (states_consistent m -> forall h d0 d' o, descrs m h = Some d0 -> descrs (fst (transaction 6 None acts m)) h = Some d' ->
+     d_ver d' <> d_ver d0 -> states m h = Some o ->
+     exists s', states (fst (transaction 6 None acts m)) h = Some s' /\ s_ver s' = s_ver o + 1 /\ s_dver s' = d_ver d').
+Proof. exact descr_tx_states. Qed.
+Print Assumptions C02_descr_tx_states.
+
+(* 3a. removal: the whole subtree (as the model computes it) is gone with its states and context states; the last versions
+   are remembered per handle *)
+Theorem C02_descr_tx_deleted : forall m acts, mdib_wf m -> descr_only acts -> acts_sep m acts ->
+  snd (transaction 6 None acts m) = 0 ->
+  forall D x, In (ADDel D) acts -> In x (subtree m D) ->
+    descrs (fst (transaction 6 None acts m)) x = None /\ states (fst (transaction 6 None acts m)) x = None /\
+    (forall d0, descrs m x = Some d0 -> sv_d (fst (transaction 6 None acts m)) x = Some (d_ver d0)) /\
+    (forall s, states m x = Some s -> sv_s (fst (transaction 6 None acts m)) x = Some (s_ver s)) /\
+    (forall ch c, cstates m ch = Some c -> c_dh c = x ->
+       cstates (fst (transaction 6 None acts m)) ch = None /\ sv_c (fst (transaction 6 None acts m)) ch = Some (c_ver c)).
+Proof. exact descr_tx_deleted. Qed.
+Print Assumptions C02_descr_tx_deleted.
+
+(* 3b. (re-)creation: the added descriptor and its state start at 0 or continue from the remembered version + 1
+   ([set_version sv h 0] = saved + 1 if a version is remembered for h, else 0) *)
+Theorem C02_descr_tx_created : forall m acts, mdib_wf m -> descr_only acts -> acts_sep m acts ->
+  snd (transaction 6 None acts m) = 0 ->
+  forall h par k p sp, In (ADAdd h par k p sp) acts ->
+    descrs m h = None /\
+    descrs (fst (transaction 6 None acts m)) h = Some (mkDescr par k (set_version (sv_d m) h 0) p) /\
+    (k <> K_CTX -> exists s, states (fst (transaction 6 None acts m)) h = Some s /\
+                             s_dver s = set_version (sv_d m) h 0 /\ s_ver s = set_version (sv_s m) h 0).
+Proof. exact descr_tx_created. Qed.
+Print Assumptions C02_descr_tx_created.
+
+(* 4. histories of transactions of ALL kinds (state, context, descriptor; aborted ones arbitrary), each well-formed for the
+   MDIB it meets ([hist_ok]): well-formedness and state <-> descriptor consistency are preserved, the version of every
+   descriptor handle - present or remembered, so also across delete and re-create - never decreases *)
+Theorem C02_history_all : forall hist m, mdib_wf m -> hist_ok m hist ->
+  mdib_wf (exec m hist) /\
+  (states_consistent m -> states_consistent (exec m hist)) /\
+  (forall h, ev_d m h <= ev_d (exec m hist) h) /\
+  (forall h d d', descrs m h = Some d -> descrs (exec m hist) h = Some d' -> d_ver d <= d_ver d').
+Proof. exact all_history. Qed.
+Print Assumptions C02_history_all.
+
+(* the separation condition is necessary: committed descriptor transactions on a well-formed, consistent MDIB
+   (1 <- 2 <- 3, every descriptor with a state) that leave a state without descriptor *)
+Theorem C02_descr_consistent_refuted_add_below_removed : refutes [ADAdd 4 (Some 2) K_METRIC 40 41; ADDel 2] 4.
+Proof. exact consistent_refuted_add_below_removed. Qed.
+Print Assumptions C02_descr_consistent_refuted_add_below_removed.
+Theorem C02_descr_consistent_refuted_update_below_removed : refutes [ADUpd 3 33; ADDel 2] 3.
+Proof. exact consistent_refuted_update_below_removed. Qed.
+Print Assumptions C02_descr_consistent_refuted_update_below_removed.
+Theorem C02_descr_consistent_refuted_nested_remove : refutes [ADDel 3; ADDel 1] 2.
+Proof. exact consistent_refuted_nested_remove. Qed.
+Print Assumptions C02_descr_consistent_refuted_nested_remove.
+(* in the model a descendant that is updated after the removal of its ancestor is re-created *)
+Theorem C02_descr_deleted_refuted_update_after_remove :
+  mdib_wf w_m /\ descr_only [ADDel 2; ADUpd 3 33] /\ snd (transaction 6 None [ADDel 2; ADUpd 3 33] w_m) = 0 /\
+  In 3 (subtree w_m 2) /\ descrs (fst (transaction 6 None [ADDel 2; ADUpd 3 33] w_m)) 3 <> None.
+Proof. exact deleted_refuted_update_after_remove. Qed.
+Print Assumptions C02_descr_deleted_refuted_update_after_remove.
+
+(* the hypotheses of the descriptor theorems are satisfiable: parent 2 with children 3 and 4, one transaction adds 5
+   below 2 (5 has remembered versions 6 / 2), removes 3 and updates 4 *)
+Example C02_descr_nonvacuous :
+  mdib_wf ex_m /\ states_consistent ex_m /\ descr_only ex_acts /\ acts_sep ex_m ex_acts /\
+  let r := transaction 6 None ex_acts ex_m in
+  snd r = 0 /\ ver (fst r) = 11 /\
+  map (descrs (fst r)) [1; 2; 3; 4; 5] =
+    [Some (mkDescr None K_COMP 0 10); Some (mkDescr (Some 1) K_COMP 4 20); None;
+     Some (mkDescr (Some 2) K_METRIC 6 42); Some (mkDescr (Some 2) K_METRIC 7 50)] /\
+  map (states (fst r)) [1; 2; 3; 4; 5] =
+    [Some (mkState 0 2 11); Some (mkState 4 8 21); None; Some (mkState 6 1 41); Some (mkState 7 3 51)] /\
+  sv_d (fst r) 3 = Some 1 /\ sv_s (fst r) 3 = Some 4.
+Proof. exact descr_tx_nonvacuous. Qed.
